@@ -512,7 +512,7 @@ def run(chk):
         chk.violation(what, payload, failing_input=fi)
     chk.coverage["failing_scenarios"] = sum(1 for f in found if f[1])
     chk.coverage["disagreeing_scenarios"] = sum(1 for f in found if not f[1])
-    chk.coverage["traces_validated_against_impl"] = len(scns)
+    chk.coverage["traces_validated_against_impl"] = len(scns) + chk.coverage.get("thread_schedules", 0)
     chk.coverage["distinct_nontrivial"] = len(distinct)
     chk.coverage["corpus_scenarios"] = n_corpus
     chk.coverage["rule"] = ("exhaustive: every exit cause x supervisor x parked post_stop x placement of two waiters and the "
